@@ -245,6 +245,10 @@ def check(P: Project, R: Report) -> None:
         R.ob("R2", "request method is the method parameter", parts.get("method") == "method", where, f"method={parts.get('method')}")
         pterm = parts.get("params")
         ok_p = pterm == "params" or (pterm == "{}" and "params is None" in st.lits)
+        if not ok_p and "params is None" in st.lits:
+            # the caller gave none: a fresh dict that holds nothing but the progress `_meta` the helper itself adds
+            dn_p = san.defs.get(pterm or "", ("", None))[1]
+            ok_p = isinstance(dn_p, ast.Dict) and all(isinstance(k_, ast.Constant) and k_.value == "_meta" for k_ in dn_p.keys)
         R.ob("R2", "request params are the params parameter", ok_p, where, f"params={pterm}")
         wait_b = dict(p.split("=", 1) for p in evs[wi][len("wait:"):].split("|") if "=" in p)
         awaited = wait_b.get(id_param) if id_param else None
